@@ -31,7 +31,9 @@ BOUNDS_TEXT = ("MAX_LENGTH=2.  Line receivers: every byte stream of <= n bytes (
                "pause at line 1|2 (resumed after the last delivery), one raw byte after line 1|2 then "
                "setLineMode(rest).  Netstring: every stream of 1-2 length bytes + separator byte + rest with "
                "len(length)+len(rest) <= ns (3 quick, 5 thorough), all bytes symbolic; plus the shapes "
-               "'<v>:<v bytes><byte><0-1 byte>' (v = 0..3) and two back-to-back strings of 0..2 bytes.  "
+               "'<v>:<v bytes><byte><0-1 byte>' (v = 0..3), two back-to-back strings of 0..2 bytes, and "
+               "MAX_LENGTH in {1, 2, 3, 10, 100} x string length MAX_LENGTH-1|MAX_LENGTH|MAX_LENGTH+1 (payload = "
+               "one symbolic byte repeated) x every split of the length prefix.  "
                "IntN (N=8,16,32): every stream of <= prefix+ni bytes (ni=3 quick, 4 thorough), pause at string "
                "1|2.  Round trip sendLine/sendString -> dataReceived for payloads of 0..3 bytes.  Two deliveries "
                "at every split index throughout.")
@@ -421,8 +423,8 @@ def _conc_digits(txt):
     return out
 
 
-def _ref_netstring(s):
-    """netstrings.txt + MAX_LENGTH.  Returns (strings, end): end 'ok' = waiting for more data and
+def _ref_netstring(s, mx=M):
+    """netstrings.txt + MAX_LENGTH (mx).  Returns (strings, end): end 'ok' = waiting for more data and
     nothing wrong so far, 'err' = the stream is invalid and the invalid byte has arrived, 'may' = an
     unfinished length that can no longer become valid (leading zero / already > MAX_LENGTH: closing
     now or when the colon arrives are both allowed)"""
@@ -433,18 +435,18 @@ def _ref_netstring(s):
         i = pos
         v = 0
         while i < n and "0" <= s[i] <= "9":
-            if v <= M:
+            if v <= mx:
                 v = v * 10 + (ord(s[i]) - 48)
             i += 1
         nd = i - pos
         if nd == 0:
             return ev, "err"
-        doomed = (nd > 1 and s[pos] == "0") or v > M
+        doomed = (nd > 1 and s[pos] == "0") or v > mx
         if i == n:
             return ev, ("may" if doomed else "ok")
         if doomed or s[i] != ":":
             return ev, "err"
-        for c in range(M + 1):
+        for c in range(mx + 1):
             if v == c:
                 v = c
                 break
@@ -458,25 +460,25 @@ def _ref_netstring(s):
     return ev, "ok"
 
 
-def _run_net(s, k):
+def _run_net(s, k, mx=M):
     ev = []
     p = RecNet()
     p.ev = ev
-    p.MAX_LENGTH = M
+    p.MAX_LENGTH = mx
     p.makeConnection(FakeTransport(ev))
     _deliver(p, s, k)
     return ev, p
 
 
-def _check_net(s, k):
+def _check_net(s, k, mx=M):
     """the delivery split at k (k == 0: unsplit) gives exactly the reference framing; since the
     reference is a function of the stream alone, all splits and the unsplit delivery then agree (i).
     Only where the reference leaves the moment of rejection open ('may') the unsplit run is made
     too and compared."""
-    ev, _p = _run_net(s, k)
+    ev, _p = _run_net(s, k, mx)
     api.obs(ev)
     cover()
-    ref, end = _ref_netstring(s)
+    ref, end = _ref_netstring(s, mx)
     lost = len(ev) > 0 and ev[-1] == ("lose",)
     if not _eveq(_upto_lose(ev), ref):
         return False
@@ -484,7 +486,7 @@ def _check_net(s, k):
         return lost
     if end == "ok":
         return not lost
-    ev_whole, _p = _run_net(s, 0)
+    ev_whole, _p = _run_net(s, 0, mx)
     return _eveq(ev, ev_whole)
 
 
@@ -523,6 +525,37 @@ def netshape(v: int, pay: str, c: str, e: str, split: int) -> bool:
     if n <= M and c == ",":
         return len(ev) >= 1 and _eveq(ev[:1], [("str", pay)])
     return ev == [("lose",)]
+
+
+_MAXES = [1, 2, 3, 10, 100]
+
+
+def netmax(mi: int, dv: int, c: str, split: int) -> bool:
+    """
+    pre: 0 <= mi <= 4 and 0 <= dv <= 2 and len(c) == 1 and ord(c) < 256
+    pre: 0 <= split <= 6
+    post: _
+    """
+    # the limit itself is case split (incl. the powers of ten 1, 10, 100, where the number of digits
+    # of MAX_LENGTH changes); string lengths MAX_LENGTH-1, MAX_LENGTH, MAX_LENGTH+1; payload = one
+    # symbolic byte repeated; every split index of the length prefix region + two inside the payload
+    c = _fix(c)
+    mx = _MAXES[_menu(4, mi)]
+    n = mx - 1 + _menu(2, dv)
+    pay = ""
+    for _i in range(n):
+        pay = pay + c
+    digits = str(n)
+    s = digits + ":" + pay + ","
+    pl = len(digits) + 1
+    ks = list(range(0, pl + 1)) + [pl + 1, len(s) - 1]
+    k = ks[_menu(len(ks) - 1, split)]
+    if not _check_net(s, k, mx):
+        return False
+    ev, _p = _run_net(s, k, mx)
+    if n <= mx:
+        return _eveq(ev, [("str", pay)])    # within the limit: never rejected
+    return ev == [("lose",)]                # longer: never delivered
 
 
 def nettwo(v1: int, v2: int, p1: str, p2: str, split: int) -> bool:
@@ -757,6 +790,7 @@ HARNESSES = [
     H(netstring, shards=_net_shards, timeout={"quick": 100, "thorough": 1500}),
     H(netshape, shards=[("v == %d" % v,) for v in range(0, M + 2)], timeout={"quick": 100, "thorough": 600}),
     H(nettwo, shards=[("v1 == %d" % v,) for v in range(0, M + 1)], timeout={"quick": 100, "thorough": 600}),
+    H(netmax, shards=[("mi <= 2",), ("mi == 3",), ("mi == 4",)], timeout={"quick": 100, "thorough": 600}),
     H(netsend, shards=[("len(data) == %d" % n,) for n in range(0, M + 2)], timeout={"quick": 60, "thorough": 300}),
     H(intn, shards=_intn_shards, timeout={"quick": 100, "thorough": 1500}),
     H(intnsend, shards=[("pl == %d" % pl,) for pl in (1, 2, 4)], timeout={"quick": 60, "thorough": 300}),
@@ -778,6 +812,8 @@ VECTORS = {
                   ("0", ":", ",1:", 4), ("1", ":", "x,0:,", 5), ("3", ":", "abc,", 0), ("12", ":", "", 1),
                   ("1", ",", "a,", 2), ("2", ":", "a", 3), ("99", "9", "999", 2), ("0", ":", ",,", 3)],
     "netshape": [(2, "ab", ",", "1", 3), (3, "abc", ",", "", 2), (1, "x", "y", "z", 4), (0, "", ",", ":", 0)],
+    "netmax": [(0, 1, ",", 0), (0, 0, "x", 1), (0, 2, "x", 2), (3, 1, "a", 1), (3, 0, "a", 2), (3, 2, "\xff", 3),
+               (4, 1, "a", 2), (4, 2, "a", 5), (4, 0, ":", 3), (1, 1, "7", 4), (2, 2, "0", 0)],
     "nettwo": [(1, 2, "a", "bc", 5), (0, 0, "", "", 3), (2, 1, ",,", ":", 9)],
     "netsend": [("ab", "", 2), ("", "x", 0), ("abc", "", 1), (",:", "1", 5), ("\xff", "", 3)],
     "intn": [("\x01a\x02bc", 2, 1, 0), ("\x00\x01a\x00\x00", 3, 2, 1), ("\x00\x00\x00\x02ub", 4, 4, 0),
